@@ -26,7 +26,11 @@
 (*   kind    "cff" | "cff2"                                                *)
 (*   nG, nL  number of global / local subroutines (decides the bias)       *)
 (*   gsubrs, lsubrs   sparse subroutine tables: sequences of [i, b]        *)
-(*   comps   charstrings of the glyphs a seac endchar may name: [code, b]  *)
+(*   comps   charstrings of the glyphs a seac endchar may name: sparse     *)
+(*           table [i |-> glyph id, b |-> bytes]                           *)
+(*   charset, nGlyphs   the font's charset (format + ranges) and glyph     *)
+(*           count: a seac code is resolved StandardEncoding code -> SID   *)
+(*           -> glyph id through them (StdEncSid, SidToGid)                *)
 (*   regions sequence (one per ItemVariationData) of sequences of regions; *)
 (*           a region is a sequence of <<start, peak, end>> (F2Dot14 raw)  *)
 (*   tuple   normalised coordinates (F2Dot14 raw), <<>> when not variable  *)
@@ -277,6 +281,83 @@ RegionScalarFrom(region, tuple, i) ==
 RegionScalar(region, tuple) == RegionScalarFrom(region, tuple, 1)
 
 ---------------------------------------------------------------------------
+\* seac: StandardEncoding code -> SID -> glyph id (TN5177 appendix C, TN5176 sections 12, 13 and
+\* appendices B, C).
+\* StandardEncoding: SID of a code, 0 where the encoding has no entry (.notdef)
+StdEncSid(c) ==
+  IF c >= 32 /\ c <= 126 THEN c - 31                      \* space .. asciitilde: SID 1 .. 95
+  ELSE IF c >= 161 /\ c <= 175 THEN c - 65                \* exclamdown .. fl: 96 .. 110
+  ELSE IF c >= 177 /\ c <= 180 THEN c - 66                \* endash .. periodcentered: 111 .. 114
+  ELSE IF c >= 182 /\ c <= 189 THEN c - 67                \* paragraph .. perthousand: 115 .. 122
+  ELSE IF c = 191 THEN 123                                \* questiondown
+  ELSE IF c >= 193 /\ c <= 200 THEN c - 69                \* grave .. dieresis: 124 .. 131
+  ELSE IF c >= 202 /\ c <= 203 THEN c - 70                \* ring, cedilla: 132, 133
+  ELSE IF c >= 205 /\ c <= 208 THEN c - 71                \* hungarumlaut .. emdash: 134 .. 137
+  ELSE IF c = 225 THEN 138                                \* AE
+  ELSE IF c = 227 THEN 139                                \* ordfeminine
+  ELSE IF c >= 232 /\ c <= 235 THEN c - 92                \* Lslash .. ordmasculine: 140 .. 143
+  ELSE IF c = 241 THEN 144                                \* ae
+  ELSE IF c = 245 THEN 145                                \* dotlessi
+  ELSE IF c >= 248 /\ c <= 251 THEN c - 102               \* lslash .. germandbls: 146 .. 149
+  ELSE 0
+
+\* A charset is  [fmt, ranges]:
+\*   fmt "iso" | "expert" | "expsub"   the predefined charsets (Top DICT charset offset 0 / 1 / 2); no ranges
+\*   fmt "f0"                          ranges[i] = <<SID of glyph i, 0>>
+\*   fmt "f1" | "f2"                   ranges[i] = <<first SID, nLeft>>: nLeft + 1 glyphs with consecutive SIDs
+\* Glyph 0 (.notdef, SID 0) is never listed.
+Ival(a, b) == [i \in 1 .. b - a + 1 |-> a + i - 1]
+IsoAdobeSids == Ival(0, 228)
+ExpertSids ==
+  <<0, 1>> \o Ival(229, 238) \o <<13, 14, 15, 99>> \o Ival(239, 248) \o <<27, 28>> \o Ival(249, 266)
+  \o <<109, 110>> \o Ival(267, 318) \o <<158, 155, 163>> \o Ival(319, 326) \o <<150, 164, 169>> \o Ival(327, 378)
+ExpertSubsetSids ==
+  <<0, 1, 231, 232>> \o Ival(235, 238) \o <<13, 14, 15, 99>> \o Ival(239, 248) \o <<27, 28, 249, 250, 251>>
+  \o Ival(253, 266) \o <<109, 110>> \o Ival(267, 270) \o <<272, 300, 301, 302, 305, 314, 315, 158, 155, 163>>
+  \o Ival(320, 326) \o <<150, 164, 169>> \o Ival(327, 346)
+Predefined(cs) == cs.fmt \in {"iso", "expert", "expsub"}
+PredefSids(fmt) == IF fmt = "iso" THEN IsoAdobeSids ELSE IF fmt = "expert" THEN ExpertSids ELSE ExpertSubsetSids
+
+RECURSIVE PosIn(_, _, _)
+PosIn(seq, v, i) == IF i > Len(seq) THEN 0 ELSE IF seq[i] = v THEN i ELSE PosIn(seq, v, i + 1)
+
+\* the glyph a SID names in a range charset: walk the ranges, `gid` is the glyph id of the first glyph
+\* of range i (a range of nLeft covers nLeft + 1 glyphs); -1 when no range holds the SID
+RECURSIVE RangeGid(_, _, _, _)
+RangeGid(ranges, sid, i, gid) ==
+  IF i > Len(ranges) THEN -1
+  ELSE IF ranges[i][1] <= sid /\ sid <= ranges[i][1] + ranges[i][2] THEN gid + (sid - ranges[i][1])
+  ELSE RangeGid(ranges, sid, i + 1, gid + ranges[i][2] + 1)
+RECURSIVE RangeIdx(_, _, _)
+RangeIdx(ranges, sid, i) ==          \* which range holds the SID (0: none)
+  IF i > Len(ranges) THEN 0
+  ELSE IF ranges[i][1] <= sid /\ sid <= ranges[i][1] + ranges[i][2] THEN i
+  ELSE RangeIdx(ranges, sid, i + 1)
+
+\* SID -> glyph id in a font of nGlyphs glyphs; -1: the font has no glyph of that name
+SidToGid(cs, nGlyphs, sid) ==
+  LET g == IF sid = 0 THEN 0
+           ELSE IF cs.fmt = "iso" THEN (IF sid <= 228 THEN sid ELSE -1)
+           ELSE IF Predefined(cs) THEN PosIn(PredefSids(cs.fmt), sid, 1) - 1
+           ELSE RangeGid(cs.ranges, sid, 1, 1) IN
+  IF g >= 0 /\ g < nGlyphs THEN g ELSE -1
+
+\* the other direction, defined on its own: the SIDs of glyph 0, 1, ... (MC_Type2 checks that the two agree)
+RECURSIVE FlatRanges(_, _)
+FlatRanges(ranges, i) ==
+  IF i > Len(ranges) THEN <<>> ELSE Ival(ranges[i][1], ranges[i][1] + ranges[i][2]) \o FlatRanges(ranges, i + 1)
+CharsetSids(cs, nGlyphs) ==
+  LET all == IF Predefined(cs) THEN PredefSids(cs.fmt) ELSE <<0>> \o FlatRanges(cs.ranges, 1) IN
+  SubSeq(all, 1, IF nGlyphs < Len(all) THEN nGlyphs ELSE Len(all))
+
+\* glyph id of the glyph a seac code names: -1 the font has no such glyph, -2 the code is not in
+\* StandardEncoding, -3 not a code
+SeacGid(fc, code) ==
+  IF code < 0 \/ code > 255 THEN -3
+  ELSE IF StdEncSid(code) = 0 THEN -2
+  ELSE SidToGid(fc.charset, fc.nGlyphs, StdEncSid(code))
+
+---------------------------------------------------------------------------
 \* Machine state
 Frame(code, pc) == [code |-> code, pc |-> pc]
 InitM(code) ==
@@ -285,7 +366,7 @@ InitM(code) ==
    halt |-> "", why |-> "", maxStack |-> 0, maxDepth |-> 0,
    fuzzy |-> FALSE,                \* some operand or coordinate is not exact in single precision
    vsindex |-> -1, seenBlend |-> FALSE,
-   seac |-> 0, acc |-> <<>>]       \* seac: 0 none, 1 in base, 2 in accent; acc = <<adx, ady, code>>
+   seac |-> 0, acc |-> <<>>]       \* seac: 0 none, 1 in base, 2 in accent; acc = <<adx, ady, accent glyph id>>
 
 Depth(m) == Len(m.frames) - 1
 Top(m)   == m.frames[Len(m.frames)]
@@ -380,11 +461,21 @@ Op_return(fc, m) ==
   ELSE [m EXCEPT !.frames = SubSeq(@, 1, Len(@) - 1)]
 
 \* Start a seac component: a complete charstring of its own (own width prefix, own hints)
-StartComp(fc, m, code, which, x, y) ==
-  LET k == Find(fc.comps, code, 1) IN
+StartComp(fc, m, gid, which, x, y) ==
+  LET k == Find(fc.comps, gid, 1) IN
   IF k = 0 THEN Fail(m, "SeacGlyphNotSupplied")
   ELSE [m EXCEPT !.frames = <<Frame(fc.comps[k].b, 1)>>, !.stack = <<>>, !.haveWidth = FALSE,
                  !.nStems = 0, !.seac = which, !.x = x, !.y = y]
+
+\* bchar and achar are StandardEncoding codes: both are resolved to glyphs of this font (code -> SID ->
+\* charset -> glyph id) before the base is drawn.  A code outside StandardEncoding or a glyph the font
+\* does not have: the program is not well formed (TN5177 appendix C requires both characters to be in
+\* the font) - the machine rejects it, as FreeType and HarfBuzz do.
+SeacStart(fc, m, adx, ady, bg, ag) ==
+  IF bg = -3 \/ ag = -3 THEN Fail(m, "BadSeacCode")
+  ELSE IF bg = -2 \/ ag = -2 THEN Fail(m, "SeacCodeNotEncoded")
+  ELSE IF bg = -1 \/ ag = -1 THEN Fail(m, "SeacGlyphMissing")
+  ELSE StartComp(fc, [CloseIfOpen(m) EXCEPT !.acc = <<adx, ady, ag>>], bg, 1, 0, 0)
 
 Op_endchar(fc, m) ==
   IF fc.kind = "cff2" THEN Fail(m, "InvalidOperator")
@@ -396,8 +487,7 @@ Op_endchar(fc, m) ==
        IF ~w.ok \/ ~fc.seacOk THEN Fail(m, "BadArgs")
        ELSE LET a == w.a IN
             IF ~IsInt(a[3]) \/ ~IsInt(a[4]) THEN Fail(m, "BadSeacCode")
-            ELSE StartComp(fc, [CloseIfOpen(w.m) EXCEPT !.acc = <<a[1], a[2], a[4] \div ONE>>],
-                           a[3] \div ONE, 1, 0, 0)
+            ELSE SeacStart(fc, w.m, a[1], a[2], SeacGid(fc, a[3] \div ONE), SeacGid(fc, a[4] \div ONE))
   ELSE LET w == TakeWidth(fc, m, n = 1) IN
        IF ~w.ok \/ Len(w.a) # 0 THEN Fail(m, "BadArgs")
        ELSE LET c == Clear(CloseIfOpen(w.m)) IN
